@@ -86,25 +86,31 @@ def check_metatype_cmp(chk, prog, cfg, rule="R16.1"):
         if b is None:
             chk.anchor_missing("MetaType::" + meth)
             continue
-        rt = b.return_term()
-        ok = False
-        detail = path_str(rt)
-        if is_call(rt, decl) and len(rt[2]) == 2:
-            tid_ty_ok = True
-            a0 = paths.access_path(b, rt[2][0])
-            ok = a0 is not None and a0[0] == cr.arg(b, 1) and a0[1] == ".type_id"
-            if nops == 2:
-                a1 = paths.access_path(b, rt[2][1])
-                ok = ok and a1 is not None and a1[0] == cr.arg(b, 2) and a1[1] == ".type_id"
-            else:
-                ok = ok and unref(rt[2][1]) == cr.arg(b, 2)
-            # delegate resolves to TypeId's impl
-            ris = rt[1].get("resolved_impl_self")
-            ok = ok and ris is not None and prog.ty(ris)["s"] == "core::any::TypeId"
-            ok = ok and len(b.calls()) == 1
-        # no read of fn_type_info anywhere in the body
-        reads_fn = any(who.term_hits(t, MT, "fn_type_info") for bb, c in b.calls() for t in [b.operand_term(a) for a in c["args"]])
-        chk.expect(ok and not reads_fn, rule, "MetaType:%s" % last(tr), b.where(), detail, cfg)
+        from ..lib import symrun as _sr, absint as _ai
+        S_ = _ai.Sym
+
+        class R0(_sr.Run):
+            def handler(self, name, args, t):
+                sp = mir.strip_generics(name)
+                lastn = sp.split("::")[-1]
+                ris = t.get("resolved_impl_self")
+                gs = [g for g in (t.get("gargs") or []) if isinstance(g, int)]
+                on_typeid = (ris is not None and prog.ty(ris)["s"] == "core::any::TypeId") or (gs and prog.ty(gs[0])["s"] == "core::any::TypeId")
+                if lastn in ("cmp", "eq", "ne", "hash", "fmt") and on_typeid and len(args) == 2:
+                    self.log.append((lastn, args[0], args[1]))
+                    return S_(lastn.upper())
+                return _sr.Run.handler(self, name, args, t)
+        r = R0(prog)
+        try:
+            a1 = _sr.struct(prog, MT, "self")
+            a2 = _sr.struct(prog, MT, "other") if nops == 2 else S_("arg2")
+            v = r.run(fn[0]["path"], [a1, a2])
+            second = S_("other.type_id") if nops == 2 else S_("arg2")
+            ok = v == S_(meth.upper()) and r.log == [(meth, S_("self.type_id"), second)]
+            detail = "%s = %s over %s" % (meth, _sr.show(v), [(x[0], _sr.show(x[1]), _sr.show(x[2])) for x in r.log])
+        except _ai.Unrecognised as e:
+            ok, detail = False, "cannot interpret: %s" % e
+        chk.expect(ok, rule, "MetaType:%s" % last(tr), b.where(), detail + " (required: TypeId's %s on the `type_id` fields only)" % meth, cfg)
     # partial_cmp and is_phantom: decided on symbolic runs (delegation to the sibling impl or a direct comparison of the ids are the same thing)
     from ..lib import symrun, absint
     S = absint.Sym
